@@ -236,4 +236,16 @@ PROPS = {
              "bound": "CHARACTERISTIC with 0..=7 AXIS_DESCR of attribute STD_AXIS / FIX_AXIS / COM_AXIS (24 cases): check() is total", "timeout": 300, "extra_modules": ["tokenizer"]},
         ],
     },
+    "C10": {
+        "files": ["a2lfile/src/cleanup.rs", "a2lfile/src/cleanup/groups.rs", "a2lfile/src/cleanup/functions.rs", "a2lfile/src/cleanup/compu_methods.rs", "a2lfile/src/cleanup/record_layouts.rs", "a2lfile/src/itemlist.rs"],
+        "trusted": T_STD,
+        "assumptions": ["modules are built by loading template texts through the real parser inside the symbolic executor",
+                        "each case keeps one helper alive from exactly one reference site (14 sites incl. STATUS_STRING_REF, AXIS_DESCR in TYPEDEF_CHARACTERISTIC, INSTANCE OVERWRITE, S_REC_LAYOUT, USER_RIGHTS) next to one unreferenced helper of every kind"],
+        "jobs": [
+            {"engine": "E2", "module": "lib", "harness": "h_cleanup_sites", "functions": ["A2lFile::cleanup", "cleanup::cleanup", "cleanup::groups::*", "cleanup::functions::*", "cleanup::compu_methods::*", "cleanup::record_layouts::cleanup", "checker::check"],
+             "bound": "15 template modules (baseline + 14 single keeping sites); cleanup applied twice", "timeout": 400, "extra_modules": ["tokenizer"], "validate": 15},
+            {"engine": "E2", "module": "lib", "harness": "h_cleanup_unit_chain", "functions": ["cleanup::compu_methods::remove_unused_sub_elements"],
+             "bound": "REF_UNIT chains of length 0..=3 not anchored in any COMPU_METHOD; cleanup applied twice", "timeout": 200, "extra_modules": ["tokenizer"]},
+        ],
+    },
 }
